@@ -1,0 +1,140 @@
+//go:build verif
+
+package ssh
+
+// Additional verification hooks for properties C25 and C26 (hardening pass).
+// Add-only: with the verif tag off this file is not compiled. Unlike the hooks in
+// verif_c25.go nothing here copies a buffer: the caller's key material, kex
+// values and payload slices reach the real code as they are, and the slices the
+// real code returns are handed out as they are, so that a check can overwrite
+// its buffers after a call and see whether the package still depends on them.
+// The transport wrapper goes through newTransport / prepareKeyChange, i.e. the
+// real key-change path (fresh packetCipher objects picked up at msgNewKeys).
+
+import (
+	"crypto"
+	"errors"
+	"io"
+)
+
+// VerifC25NewRaw is VerifC25New without the defensive copies: key, iv and macKey
+// are passed to cipherModes[cipher].create as given.
+func VerifC25NewRaw(cipher, mac string, key, iv, macKey []byte) (*VerifC25Cipher, error) {
+	mode := cipherModes[cipher]
+	if mode == nil {
+		return nil, errors.New("verif: unknown cipher " + cipher)
+	}
+	if len(key) != mode.keySize || len(iv) != mode.ivSize {
+		return nil, errors.New("verif: wrong key or iv size for " + cipher)
+	}
+	if !aeadCiphers[cipher] {
+		mm := macModes[mac]
+		if mm == nil {
+			return nil, errors.New("verif: unknown MAC " + mac)
+		}
+		if len(macKey) != mm.keySize {
+			return nil, errors.New("verif: wrong MAC key size for " + mac)
+		}
+	}
+	pc, err := mode.create(key, iv, macKey, DirectionAlgorithms{Cipher: cipher, MAC: mac})
+	if err != nil {
+		return nil, err
+	}
+	return &VerifC25Cipher{pc: pc}, nil
+}
+
+// WritePacketRaw calls writeCipherPacket with the caller's payload slice itself.
+func (c *VerifC25Cipher) WritePacketRaw(seq uint32, w io.Writer, rand io.Reader, payload []byte) error {
+	return c.pc.writeCipherPacket(seq, w, rand, payload)
+}
+
+// ReadPacketRaw calls readCipherPacket and returns its result slice itself (it may
+// point into the cipher's internal buffer).
+func (c *VerifC25Cipher) ReadPacketRaw(seq uint32, r io.Reader) ([]byte, error) {
+	return c.pc.readCipherPacket(seq, r)
+}
+
+// WritePacketRaw is connectionState.writePacket (non-strict mode) with the
+// caller's payload slice itself.
+func (c *VerifC25Conn) WritePacketRaw(rand io.Reader, payload []byte) error {
+	return c.cs.writePacket(c.bw, rand, payload, false)
+}
+
+// VerifC25Kex is ONE kexResult object. prepareKeyChange derives the keys of both
+// directions from the same object; NewCipher can be called on it repeatedly.
+type VerifC25Kex struct {
+	r *kexResult
+}
+
+// VerifC25NewKex wraps the given slices (not copied) in a kexResult.
+func VerifC25NewKex(k, h, sessionID []byte, hash crypto.Hash) *VerifC25Kex {
+	return &VerifC25Kex{r: &kexResult{K: k, H: h, SessionID: sessionID, Hash: hash}}
+}
+
+// NewCipher is newPacketCipher on the shared kexResult.
+func (k *VerifC25Kex) NewCipher(cipher, mac string, clientToServer bool) (*VerifC25Cipher, error) {
+	d := serverKeys
+	if clientToServer {
+		d = clientKeys
+	}
+	if cipherModes[cipher] == nil {
+		return nil, errors.New("verif: unknown cipher " + cipher)
+	}
+	if !aeadCiphers[cipher] && macModes[mac] == nil {
+		return nil, errors.New("verif: unknown MAC " + mac)
+	}
+	pc, err := newPacketCipher(d, DirectionAlgorithms{Cipher: cipher, MAC: mac}, k.r)
+	if err != nil {
+		return nil, err
+	}
+	return &VerifC25Cipher{pc: pc}, nil
+}
+
+// VerifC25Transport is a real transport (newTransport) over the given byte
+// stream: mode "none" until the first key change, sequence numbers owned by its
+// two connectionStates, key changes through prepareKeyChange + msgNewKeys.
+type VerifC25Transport struct {
+	t *transport
+}
+
+type verifC25RWC struct {
+	io.Reader
+	io.Writer
+}
+
+func (verifC25RWC) Close() error { return nil }
+
+// VerifC25NewTransport is newTransport(r+w, rand, isClient).
+func VerifC25NewTransport(r io.Reader, w io.Writer, rand io.Reader, isClient bool) *VerifC25Transport {
+	return &VerifC25Transport{t: newTransport(verifC25RWC{r, w}, rand, isClient)}
+}
+
+// WritePacket is transport.writePacket with the caller's slice itself.
+func (t *VerifC25Transport) WritePacket(p []byte) error { return t.t.writePacket(p) }
+
+// ReadPacket is transport.readPacket; the result is returned as it is.
+func (t *VerifC25Transport) ReadPacket() ([]byte, error) { return t.t.readPacket() }
+
+// PrepareKeyChange is transport.prepareKeyChange: both directions' new ciphers are
+// derived from the one kexResult and queued until msgNewKeys is written / read.
+func (t *VerifC25Transport) PrepareKeyChange(algs NegotiatedAlgorithms, kex *VerifC25Kex) error {
+	a := algs
+	return t.t.prepareKeyChange(&a, kex.r)
+}
+
+// SetStrictMode is transport.setStrictMode.
+func (t *VerifC25Transport) SetStrictMode() error { return t.t.setStrictMode() }
+
+// SetInitialKEXDone is transport.setInitialKEXDone.
+func (t *VerifC25Transport) SetInitialKEXDone() { t.t.setInitialKEXDone() }
+
+// SeqNums returns the reader's and the writer's current sequence numbers.
+func (t *VerifC25Transport) SeqNums() (read, write uint32) {
+	return t.t.reader.seqNum, t.t.writer.seqNum
+}
+
+// SetSeqNums sets the reader's and the writer's sequence numbers (to start a
+// history close to the 2^32 wrap).
+func (t *VerifC25Transport) SetSeqNums(read, write uint32) {
+	t.t.reader.seqNum, t.t.writer.seqNum = read, write
+}
